@@ -27,6 +27,7 @@ import (
 	"fmt"
 	"io"
 	mrand "math/rand"
+	"os"
 	"path/filepath"
 	"sort"
 	"strings"
@@ -191,6 +192,9 @@ type vfC13pStream struct {
 	inbound   bool
 	attempt   int            // push attempt number on this connection (1-based), 0 if not a push stream
 	openTick  int
+	readTick  int
+	ended     bool
+	landed    bool // the sender has let go of the stream (Close / Reset): its semaphore slot is about to be free
 	openGate  *vfC13pGate    // push streams in gated mode
 	writeGate *vfC13pGate
 	passed    int            // 0 at/before the open gate, 1 between the gates, 2 past the write gate / finished
@@ -199,11 +203,11 @@ type vfC13pStream struct {
 
 func (s *vfC13pStream) Read(p []byte) (int, error)                   { return s.vfC13pEnd.Read(p) }
 func (s *vfC13pStream) Write(p []byte) (int, error)                  { return s.vfC13pEnd.Write(p) }
-func (s *vfC13pStream) Close() error                                 { return s.vfC13pEnd.Close() }
+func (s *vfC13pStream) Close() error                                 { s.c.sys.flightEnd(s); return s.vfC13pEnd.Close() }
 func (s *vfC13pStream) CloseWrite() error                            { return s.vfC13pEnd.Close() }
 func (s *vfC13pStream) CloseRead() error                             { return nil }
-func (s *vfC13pStream) Reset() error                                 { s.reset(); return nil }
-func (s *vfC13pStream) ResetWithError(network.StreamErrorCode) error { s.reset(); return nil }
+func (s *vfC13pStream) Reset() error                                 { s.c.sys.flightEnd(s); s.reset(); return nil }
+func (s *vfC13pStream) ResetWithError(network.StreamErrorCode) error { return s.Reset() }
 func (s *vfC13pStream) SetDeadline(time.Time) error                  { return nil }
 func (s *vfC13pStream) SetReadDeadline(time.Time) error              { return nil }
 func (s *vfC13pStream) SetWriteDeadline(time.Time) error             { return nil }
@@ -287,6 +291,7 @@ func (s *vfC13pStream) farPush(refuse bool) {
 	}
 	if _, _, err := mux.Negotiate(s.far); err != nil {
 		s.far.reset()
+		s.c.sys.pushEnded(s, true)
 		return
 	}
 	mes, err := vfC13pReadAll(s.far)
@@ -467,7 +472,7 @@ type vfC13pDelivery struct {
 
 type vfC13pConnLedger struct {
 	connected, identified, discTick int // ticks (0 = not yet)
-	sup                             bool
+	sup, asked                      bool
 	opens                           []int // tick of every push stream opened on the connection
 	fails                           []int // tick at which every failed push attempt had been opened
 	deliv                           []vfC13pDelivery
@@ -497,6 +502,7 @@ type vfC13pSys struct {
 	recSeq     uint64
 	nfresh     int
 	saved      map[int]vfC13pSaved // model content id -> host state (for "revert")
+	undo       []vfC13pSaved       // free runs: states to flip back to
 	// ledger
 	tick      int
 	hist      []vfC13pHostVer // host content over time
@@ -518,7 +524,7 @@ type vfC13pSaved struct {
 	rec    uint64
 }
 
-func vfC13pNew(gated bool, seed int64, withRecord bool) (*vfC13pSys, error) {
+func vfC13pNew(gated bool, seed int64, withRecord bool, opts ...string) (*vfC13pSys, error) {
 	vfC13pInit(1)
 	s := &vfC13pSys{gated: gated, rnd: mrand.New(mrand.NewSource(seed)), conns: map[string]*vfC13pConn{},
 		led: map[string]*vfC13pConnLedger{}, saved: map[int]vfC13pSaved{}}
@@ -557,6 +563,12 @@ func vfC13pNew(gated bool, seed int64, withRecord bool) (*vfC13pSys, error) {
 	s.noteHost()
 	s.updTicks = append(s.updTicks, s.tick)
 	ids.Start()
+	// Start() takes the first snapshot and only then starts the loop goroutine, which subscribes to the bus:
+	// an event emitted before that is never seen (see TestVerifC13pFree, startup probe).  The model begins
+	// with the loop subscribed.
+	if len(opts) == 0 || opts[0] != "nowait" {
+		synctest.Wait()
+	}
 	s.started = true
 	if len(s.notifiees) != 1 || s.host.handlers[IDPush] == nil || s.host.handlers[ID] == nil {
 		return nil, errors.New("Start did not register the notifiee and the handlers")
@@ -616,6 +628,9 @@ func (s *vfC13pSys) noteHost() {
 	s.mu.Lock()
 	s.tick++
 	s.hist = append(s.hist, vfC13pHostVer{s.tick, s.hostKey()})
+	if len(s.hist) > 1 {
+		s.trace.Emit("change", "host", len(s.hist)-1)
+	}
 	s.mu.Unlock()
 }
 
@@ -645,7 +660,7 @@ func (s *vfC13pSys) updateGate() {
 	if !s.gated {
 		s.tick++
 		s.updTicks = append(s.updTicks, s.tick)
-		s.trace.Emit("upd", "host", len(s.hist)-1)
+		s.trace.Emit("upd", "host", len(s.hist)-1, "cls", s.verOf(s.hist[len(s.hist)-1].Key))
 		s.mu.Unlock()
 		return
 	}
@@ -702,22 +717,39 @@ func (s *vfC13pSys) pushOpen(st *vfC13pStream) string {
 
 // pushWrite: sendIdentifyResp is about to read the snapshot and write it to st
 func (s *vfC13pSys) pushWrite(st *vfC13pStream) string {
+	var how string
 	if !s.gated {
-		return s.free.write(st.c, st)
+		how = s.free.write(st.c, st)
+	} else {
+		st.writeGate = vfC13pNewGate()
+		how = st.writeGate.wait()
+		st.passed = 2
 	}
-	st.writeGate = vfC13pNewGate()
-	how := st.writeGate.wait()
-	st.passed = 2
 	if how == "scope" {
 		s.pushEnded(st, true)
+	} else {
+		s.readStart(st)
 	}
 	return how
 }
 
-func (s *vfC13pSys) pushEnded(st *vfC13pStream, failed bool) {
+// readStart: from here on sendIdentifyResp reads the snapshot it is going to write
+func (s *vfC13pSys) readStart(st *vfC13pStream) {
 	s.mu.Lock()
 	s.tick++
-	s.inflight--
+	st.readTick = s.tick
+	s.trace.Emit("wstart", "c", st.c.name, "n", st.attempt)
+	s.mu.Unlock()
+}
+
+func (s *vfC13pSys) pushEnded(st *vfC13pStream, failed bool) {
+	s.mu.Lock()
+	if st.ended {
+		s.mu.Unlock()
+		return
+	}
+	st.ended = true
+	s.tick++
 	if failed {
 		l := s.led[st.c.name]
 		l.fails = append(l.fails, st.openTick)
@@ -767,9 +799,14 @@ func (s *vfC13pSys) delivered(st *vfC13pStream, mes *pb.Identify, kind string) {
 		s.mm = append(s.mm, vfC13pMM{"push-record-invalid", kind + " on " + c.name + ": the signed record " + recBad, nil, nil})
 	}
 	// the content is the host's state at some moment since updateSnapshot last (gated) / last but one (free) read it
-	from := s.updTicks[len(s.updTicks)-1]
-	if !s.gated && len(s.updTicks) > 1 {
-		from = s.updTicks[len(s.updTicks)-2]
+	// (counted at the moment the sender began: the log line of a delivery may come late)
+	k := 0
+	for k < len(s.updTicks) && s.updTicks[k] <= st.readTick {
+		k++
+	}
+	from := s.updTicks[max(k-1, 0)]
+	if !s.gated {
+		from = s.updTicks[max(k-2, 0)]
 	}
 	okc := false
 	var allowed []string
@@ -788,7 +825,7 @@ func (s *vfC13pSys) delivered(st *vfC13pStream, mes *pb.Identify, kind string) {
 	}
 	if kind == "push" {
 		for _, e := range l.deliv {
-			if e.Key == key && e.Kind == "push" {
+			if e.Key == key && e.Kind == "push" && s.verOf(key) == s.lastVerOf(key) { // (a host that went back to old content pushes it again)
 				s.mm = append(s.mm, vfC13pMM{"push-duplicate", "the same snapshot content was pushed twice to " + c.name, nil, key})
 			}
 		}
@@ -844,11 +881,10 @@ func (s *vfC13pSys) change(kind string, id int, allowRec bool) (string, error) {
 		case k == 1:
 			sub = "addr"
 			if len(s.hostAddrs) > 2 && s.rnd.Intn(2) == 0 {
-				s.hostAddrs = s.hostAddrs[:len(s.hostAddrs)-1] // an address disappears
+				s.hostAddrs = s.hostAddrs[:len(s.hostAddrs)-1] // an address is replaced by another
 				sub = "addr-"
-			} else {
-				s.hostAddrs = append(s.hostAddrs, ma.StringCast(fmt.Sprintf("/ip4/9.9.%d.%d/tcp/%d", s.rnd.Intn(200), n, 4000+n)))
 			}
+			s.hostAddrs = append(s.hostAddrs, ma.StringCast(fmt.Sprintf("/ip4/9.9.%d.%d/tcp/%d", s.rnd.Intn(200), n, 4000+n)))
 		case k == 2 && len(s.hostProtos) > 3:
 			sub = "proto-"
 			s.hostProtos = append(s.hostProtos[:3:3], s.hostProtos[4:]...) // a protocol handler is removed
@@ -879,7 +915,6 @@ func (s *vfC13pSys) change(kind string, id int, allowRec bool) (string, error) {
 		return "", fmt.Errorf("unknown change kind %q", kind)
 	}
 	s.noteHost()
-	s.trace.Emit("change", "host", len(s.hist)-1)
 	s.emit(strings.HasPrefix(sub, "proto") || (sub == "revert" && s.rnd.Intn(2) == 0))
 	return sub, nil
 }
@@ -890,15 +925,21 @@ func (s *vfC13pSys) connect(name string, idx int) *vfC13pConn {
 	s.tick++
 	s.conns[name] = c
 	s.order = append(s.order, name)
-	s.led[name] = &vfC13pConnLedger{connected: s.tick}
-	s.trace.Emit("connected", "c", name)
+	l := &vfC13pConnLedger{connected: 1 << 30}
+	s.led[name] = l
 	s.mu.Unlock()
 	s.notifiees[0].Connected(s.net, c)
+	s.mu.Lock() // (logged once the entry exists: a round that starts later cannot miss the connection)
+	s.tick++
+	l.connected = s.tick
+	s.trace.Emit("connected", "c", name)
+	s.mu.Unlock()
 	return c
 }
 
 // identify answers the outbound identify request on c
 func (s *vfC13pSys) identify(c *vfC13pConn, sup bool) error {
+	synctest.Wait()
 	c.mu.Lock()
 	st := c.idStream
 	c.mu.Unlock()
@@ -931,6 +972,7 @@ func (s *vfC13pSys) idresp(c *vfC13pConn) error {
 	st := c.pipe(fmt.Sprintf("%s-in-%d", c.name, c.nstreams), true)
 	c.mu.Unlock()
 	st.proto = ID
+	s.readStart(st)
 	s.ids.handleIdentifyRequest(st)
 	mes, err := vfC13pReadAll(st.far)
 	if err != nil {
@@ -1169,7 +1211,8 @@ func (s *vfC13pSys) settle() {
 		s.mu.Unlock()
 		if g != nil && g.here() {
 			g.ch <- "ok"
-			moved = true
+			synctest.Wait()
+			continue
 		}
 		for _, c := range s.connList() {
 			l := s.led[c.name]
@@ -1180,9 +1223,11 @@ func (s *vfC13pSys) settle() {
 			switch s.stage(c) {
 			case "open":
 				st.openGate.ch <- map[bool]string{true: "ok", false: "refuse"}[good]
+				synctest.Wait()
 				moved = true
 			case "write":
 				st.writeGate.ch <- map[bool]string{true: "ok", false: "reset"}[!c.IsClosed()]
+				synctest.Wait()
 				moved = true
 			}
 		}
@@ -1229,7 +1274,10 @@ func (s *vfC13pSys) finish() []vfC13pMM {
 			if c.closed || l.discTick > 0 || l.identified == 0 || !l.sup || u == 0 || l.connected > u {
 				continue
 			}
-			holds := len(l.deliv) > 0 && l.deliv[len(l.deliv)-1].Key == final.Key
+			holds := false // the latest content was delivered after it became the snapshot
+			for _, d := range l.deliv {
+				holds = holds || (d.Key == final.Key && d.Tick > u)
+			}
 			excused := false
 			for _, f := range l.fails {
 				excused = excused || f > u
@@ -1423,8 +1471,259 @@ func (f *vfC13pFreeScript) write(c *vfC13pConn, st *vfC13pStream) string {
 	if r.Intn(100) < f.failPct {
 		how = []string{"reset", "scope"}[r.Intn(2)]
 	}
-	if how == "scope" {
-		c.sys.pushEnded(st, true)
-	}
 	return how
+}
+
+// closeConn: the swarm closes c (its streams die), then delivers Disconnected
+func (s *vfC13pSys) closeConn(c *vfC13pConn) {
+	c.mu.Lock()
+	c.closed = true
+	c.mu.Unlock()
+	c.resetAll()
+	synctest.Wait()
+	s.disconnect(c)
+}
+
+// flip: the host goes back to the state it had before its latest change (free runs)
+func (s *vfC13pSys) flip() bool {
+	s.mu.Lock()
+	if len(s.undo) == 0 || s.undo[len(s.undo)-1].rec != s.recSeq {
+		s.mu.Unlock()
+		return false
+	}
+	sv := s.undo[len(s.undo)-1]
+	s.undo = s.undo[:len(s.undo)-1]
+	s.hostProtos, s.hostAddrs = sv.protos, sv.addrs
+	s.mu.Unlock()
+	s.noteHost()
+	s.emit(s.rnd.Intn(2) == 0)
+	return true
+}
+
+func vfC13pScenario(t *testing.T, res *vfh.Result, it int, path string) {
+	seed := vfh.Seed()*7_000_003 + int64(it)
+	rnd := mrand.New(mrand.NewSource(seed))
+	sys, err := vfC13pNew(false, seed, rnd.Intn(2) == 0)
+	if err != nil {
+		t.Fatal(err)
+	}
+	sys.free = &vfC13pFreeScript{seed: seed, failPct: []int{0, 10, 30}[rnd.Intn(3)], maxDelay: time.Duration(1+rnd.Intn(40)) * time.Millisecond}
+	sys.trace = vfh.NewTrace(fmt.Sprintf("s%d-%d", vfh.Seed(), it))
+	nconn := 0
+	pause := func() { time.Sleep(time.Duration(rnd.Intn(25)) * time.Millisecond) }
+	live := func() []*vfC13pConn {
+		var out []*vfC13pConn
+		for _, c := range sys.connList() {
+			if !c.IsClosed() {
+				out = append(out, c)
+			}
+		}
+		return out
+	}
+	steps := 6 + rnd.Intn(14)
+	for i := 0; i < steps; i++ {
+		cs := live()
+		switch k := rnd.Intn(10); {
+		case k < 2 && nconn < 5:
+			sys.connect(fmt.Sprintf("c%d", nconn+1), nconn)
+			nconn++
+		case k < 4 && len(cs) > 0:
+			c := cs[rnd.Intn(len(cs))]
+			if l := sys.led[c.name]; l.identified == 0 && !l.asked {
+				l.asked = true
+				if err := sys.identify(c, rnd.Intn(5) > 0); err != nil {
+					t.Fatal(err)
+				}
+			}
+		case k < 5 && len(cs) > 0:
+			if err := sys.idresp(cs[rnd.Intn(len(cs))]); err != nil {
+				t.Fatal(err)
+			}
+		case k < 6 && len(cs) > 0 && rnd.Intn(2) == 0:
+			sys.closeConn(cs[rnd.Intn(len(cs))])
+		case k == 6:
+			if sys.flip() {
+				break
+			}
+			fallthrough
+		default:
+			sys.mu.Lock()
+			sys.undo = append(sys.undo, sys.save())
+			sys.mu.Unlock()
+			if _, err := sys.change("fresh", 1000+i, true); err != nil {
+				t.Fatal(err)
+			}
+		}
+		if rnd.Intn(3) > 0 {
+			pause()
+		}
+	}
+	time.Sleep(2 * time.Second) // virtual: every delay of the script has passed
+	synctest.Wait()
+	sys.rest()
+	for _, m := range sys.finish() {
+		res.AddMismatch(vfh.Mismatch{Class: m.Class, What: m.What, Walk: it, Step: -1, Expected: m.Exp, Got: m.Got,
+			Cfg: map[string]any{"scenario": it, "seed": vfh.Seed(), "fail_pct": sys.free.failPct}, Prefix: sys.trace.Events()})
+	}
+	res.Count(1, sys.trace.Len())
+	res.Inc("free_deliveries", sys.countDeliveries())
+	res.Inc("free_failed_attempts", sys.countFails())
+	if err := sys.trace.AppendTo(path, map[string]any{"limit": maxPushConcurrency}); err != nil {
+		t.Fatal(err)
+	}
+}
+
+// rest: the system is at rest; log what every connection holds and what the host's state is
+func (s *vfC13pSys) rest() {
+	s.mu.Lock()
+	defer s.mu.Unlock()
+	s.trace.Emit("final", "cls", s.verOf(s.hist[len(s.hist)-1].Key), "host", len(s.hist)-1)
+	for _, name := range s.order {
+		l := s.led[name]
+		held := -1
+		if n := len(l.deliv); n > 0 {
+			held = l.deliv[n-1].Ver
+		}
+		s.trace.Emit("rest", "c", name, "held", held)
+	}
+}
+
+func (s *vfC13pSys) countDeliveries() int {
+	s.mu.Lock()
+	defer s.mu.Unlock()
+	n := 0
+	for _, l := range s.led {
+		n += len(l.deliv)
+	}
+	return n
+}
+
+func (s *vfC13pSys) countFails() int {
+	s.mu.Lock()
+	defer s.mu.Unlock()
+	n := 0
+	for _, l := range s.led {
+		n += len(l.fails)
+	}
+	return n
+}
+
+// vfC13pLimit: more supporting connections than maxPushConcurrency, every push attempt held at its open phase
+func vfC13pLimit(t *testing.T, res *vfh.Result, path string) {
+	const n = maxPushConcurrency + 8
+	vfC13pInit(n)
+	sys, err := vfC13pNew(false, vfh.Seed(), true)
+	if err != nil {
+		t.Fatal(err)
+	}
+	sys.free = &vfC13pFreeScript{seed: vfh.Seed(), hold: make(chan struct{})}
+	sys.trace = vfh.NewTrace(fmt.Sprintf("limit-%d", vfh.Seed()))
+	for i := 0; i < n; i++ {
+		c := sys.connect(fmt.Sprintf("c%d", i+1), i)
+		synctest.Wait()
+		if i%5 != 4 { // every fifth stays unidentified (PushSupport unknown: pushed as well)
+			if err := sys.identify(c, true); err != nil {
+				t.Fatal(err)
+			}
+		}
+	}
+	if _, err := sys.change("fresh", 1, true); err != nil {
+		t.Fatal(err)
+	}
+	synctest.Wait()
+	sys.mu.Lock()
+	held := sys.inflight
+	sys.mu.Unlock()
+	res.Set("limit_conns", n)
+	res.Set("limit_attempts_in_flight_while_held", held)
+	if held > maxPushConcurrency {
+		res.AddMismatch(vfh.Mismatch{Class: "push-concurrency-exceeds-limit", What: "push attempts in flight at the same time", Walk: -1, Step: -1,
+			Expected: maxPushConcurrency, Got: held})
+	}
+	close(sys.free.hold)
+	synctest.Wait()
+	sys.rest()
+	short := 0
+	for _, l := range sys.led {
+		if len(l.deliv) != 1 {
+			short++
+		}
+	}
+	if short > 0 {
+		res.AddMismatch(vfh.Mismatch{Class: "push-supporting-conn-left-behind", What: "connections (of more than the concurrency limit) that did not get exactly one push of the new snapshot", Walk: -1, Step: -1, Expected: 0, Got: short})
+	}
+	for _, m := range sys.finish() {
+		res.AddMismatch(vfh.Mismatch{Class: m.Class, What: "limit scenario: " + m.What, Walk: -1, Step: -1, Expected: m.Exp, Got: m.Got})
+	}
+	res.Count(1, sys.trace.Len())
+	if err := sys.trace.AppendTo(path, map[string]any{"limit": maxPushConcurrency}); err != nil {
+		t.Fatal(err)
+	}
+}
+
+func TestVerifC13pFree(t *testing.T) {
+	res := vfh.NewResult()
+	out := filepath.Join(vfh.Out(), "free")
+	if err := os.MkdirAll(out, 0o755); err != nil {
+		t.Fatal(err)
+	}
+	vfC13pInit(maxPushConcurrency + 8)
+	res.Rule = "one case = one seeded gate-free scenario (connections come, are identified, ask for identify, go; the host changes and flips back; push attempts take virtual-time delays and fail by script); its observable trace is validated against spec/C13_PushObs.tla"
+	path := filepath.Join(out, "traces.ndjson")
+	iters := vfh.EnvInt("VERIF_C13P_ITERS", 150)
+	for it := 0; it < iters; it++ {
+		synctest.Test(t, func(t *testing.T) { vfC13pScenario(t, res, it, path) })
+	}
+	synctest.Test(t, func(t *testing.T) { vfC13pLimit(t, res, path) })
+	synctest.Test(t, func(t *testing.T) { vfC13pStartup(t, res) })
+	res.Traces = []string{path}
+	b, err := json.MarshalIndent(res, "", " ")
+	if err != nil {
+		t.Fatal(err)
+	}
+	if err := os.WriteFile(filepath.Join(out, "result.json"), b, 0o644); err != nil {
+		t.Fatal(err)
+	}
+}
+
+// flightEnd: the code closes or resets a push stream; the attempt no longer counts as in flight
+func (s *vfC13pSys) flightEnd(st *vfC13pStream) {
+	if st.inbound || st.attempt == 0 {
+		return
+	}
+	s.mu.Lock()
+	if !st.landed {
+		st.landed = true
+		s.inflight--
+		s.trace.Emit("end", "c", st.c.name, "n", st.attempt)
+	}
+	s.mu.Unlock()
+}
+
+// vfC13pStartup: the host changes right after Start() returned.  Start() takes the first snapshot and then starts
+// the loop goroutine, which only then subscribes to the bus: an event emitted in between reaches nobody and the
+// snapshot (hence every identify response and push) stays behind until the next event.  Outside the statement of
+// C13 and scheduling dependent: recorded, never a violation.
+func vfC13pStartup(t *testing.T, res *vfh.Result) {
+	sys, err := vfC13pNew(false, vfh.Seed(), false, "nowait")
+	if err != nil {
+		t.Fatal(err)
+	}
+	sys.free = &vfC13pFreeScript{seed: 1}
+	if _, err := sys.change("fresh", 1, false); err != nil {
+		t.Fatal(err)
+	}
+	synctest.Wait()
+	sys.mu.Lock()
+	lost := len(sys.updTicks) < 2
+	sys.mu.Unlock()
+	res.Set("startup_window_change_lost", lost)
+	if lost {
+		res.AddMismatch(vfh.Mismatch{Class: "L2:startup-window-change-lost", Walk: -1, Step: -1,
+			What: "a local change emitted right after Start() returned (before the loop goroutine subscribed to the bus) was never read by updateSnapshot: the snapshot stays behind until the next event"})
+	}
+	sys.mu.Lock()
+	sys.hist = sys.hist[:1] // (keep the at-rest clause out of this probe)
+	sys.mu.Unlock()
+	sys.finish()
 }
